@@ -163,9 +163,11 @@ class Case(object):
         chunks = chunks_for(r, data, d["style"])
         self.acc.count("chunks_delivered", len(chunks))
         self.acc.seen("chunkings", "%s/%d" % (d["style"][0], len(chunks)))
+        park_waits = True
         for ch in chunks:
-            if d["timing"] == "parked":
-                T.wait(lambda: self.worker_parked(), 2)
+            if d["timing"] == "parked" and park_waits:
+                # (a worker that has ended never parks again: do not wait 2 s per chunk for it)
+                park_waits = T.wait(lambda: self.worker_parked(), 2)
             elif d["timing"] == "jitter":
                 time.sleep(r.choice([0, 0, 0.0002, 0.001]))
             T.deliver(ch)
